@@ -187,6 +187,54 @@ pub fn check(case: &Case, tpl: &Value, st: &mut Stats) {
     }
 }
 
+/// the placements are handed out as iterators: every way of consuming one must walk the same
+/// sequence (see iterproto)
+pub fn check_protocol(case: &Case, tpl: &Value, proto_seed: u64, st: &mut Stats) {
+    use packing::traits::Basis;
+    st.eval();
+    let mut rng = crate::common::rng_for(proto_seed, 1516);
+    let state = match state_with_site(tpl, case.x, case.y, case.phi) {
+        Ok(s) => s,
+        Err(_) => return,
+    };
+    let site = lib_group(&case.group).ok().and_then(|g| packing::wallpaper::WyckoffSite::new(&g).ok()).map(|w| packing::OccupiedSite::from_wyckoff(&w));
+    if let Some(site) = &site {
+        let mut b = site.get_basis(1);
+        if b.len() == 3 {
+            b[0].set_value(case.x);
+            b[1].set_value(case.y);
+            b[2].set_value(case.phi.max(0.).min(2. * PI));
+        }
+    }
+    let mut calls = 0u64;
+    let mut found: Option<(&str, String)> = None;
+    for _ in 0..4 {
+        if let Some(site) = &site {
+            if let Some(e) = super::iterproto::check(|| site.positions(), &mut rng, &mut calls) {
+                found = Some(("OccupiedSite::positions", e));
+                break;
+            }
+        }
+        if let Some(e) = super::iterproto::check(|| state.relative_positions(), &mut rng, &mut calls) {
+            found = Some(("PackedState::relative_positions", e));
+            break;
+        }
+        if let Some(e) = super::iterproto::check(|| state.cartesian_positions(), &mut rng, &mut calls) {
+            found = Some(("PackedState::cartesian_positions", e));
+            break;
+        }
+    }
+    st.add("iterator_calls_checked_against_the_collected_sequence", calls);
+    if let Some((site, e)) = found {
+        st.violation(Violation {
+            kind: "c15.protocol".into(),
+            signature: format!("{}:placements-depend-on-how-the-iterator-is-consumed", site),
+            case: json!({"group": case.group, "x": case.x, "y": case.y, "phi": case.phi, "dx": 0, "dy": 0, "dphi": 0, "proto_seed": proto_seed}),
+            detail: json!({ "disagreement": e }),
+        });
+    }
+}
+
 /// One state object reused over a history of writes and undos through its own basis handles
 /// (what the optimiser does): after every operation the placements must be those of the
 /// coordinates the site holds *now*.
@@ -254,7 +302,7 @@ pub fn check_history(group: &str, tpl: &Value, hist_seed: u64, ops: usize, st: &
 }
 
 pub fn run(ctx: &Ctx) {
-    ctx.set_rule("states built from a JSON template with exact site coordinates: x,y uniform in [-1/2,1/2), exactly +-1/2, 0, +-1/4, 1..4 ulps either side of +-1/2, tiny/denormal negatives; orientation incl. 0, pi, 2pi; relative_positions() matched one-to-one to the ITA operations (linear part W.Rot(phi) to 1e-15, translation congruent mod 1 to W(x,y)+w to 1e-12, inside [-1/2,1/2)); plus equivalence of (x+-k, y+-k, phi+-2pi) to 1e-9 on the torus; plus histories on ONE reused state: 60 random set / reset / sampled-set operations through its own basis handles, placements checked against the coordinates the site holds after each; non-trivial = group order >= 2 or a coordinate on/next to a face or special position; distinct by exact coordinate bits");
+    ctx.set_rule("states built from a JSON template with exact site coordinates: x,y uniform in [-1/2,1/2), exactly +-1/2, 0, +-1/4, 1..4 ulps either side of +-1/2, tiny/denormal negatives; orientation incl. 0, pi, 2pi; relative_positions() matched one-to-one to the ITA operations (linear part W.Rot(phi) to 1e-15, translation congruent mod 1 to W(x,y)+w to 1e-12, inside [-1/2,1/2)); plus equivalence of (x+-k, y+-k, phi+-2pi) to 1e-9 on the torus; plus histories on ONE reused state: 60 random set / reset / sampled-set operations through its own basis handles, placements checked against the coordinates the site holds after each; plus the iterator protocol: positions() / relative_positions() / cartesian_positions() driven by random scripts of next, nth, take, size_hint and then count / last / step_by / skip / fold / collect, compared element for element with the collected sequence; non-trivial = group order >= 2 or a coordinate on/next to a face or special position; distinct by exact coordinate bits");
     let n = ctx.tier.pick(25_000u64, 3_000_000u64);
     let tpls: Vec<(String, Value)> = match groups::NAMES.iter().map(|g| template(g).map(|t| (g.to_string(), t))).collect::<Result<Vec<_>, _>>() {
         Ok(t) => t,
@@ -268,6 +316,9 @@ pub fn run(ctx: &Ctx) {
             let c = gen_case(rng);
             let tpl = &tpls.iter().find(|(g, _)| *g == c.group).unwrap().1;
             check(&c, tpl, st);
+            if rng.gen_range(0, 8) == 0 {
+                check_protocol(&c, tpl, rng.gen(), st);
+            }
         }
         for _ in 0..(n / 200).max(20) {
             let (g, tpl) = &tpls[rng.gen_range(0, tpls.len())];
@@ -285,7 +336,10 @@ pub fn replay(ctx: &Ctx, case: &Value) {
         }
     } else if let Ok(c) = serde_json::from_value::<Case>(case.clone()) {
         if let Ok(tpl) = template(&c.group) {
-            check(&c, &tpl, &mut st);
+            match case["proto_seed"].as_u64() {
+                Some(ps) => check_protocol(&c, &tpl, ps, &mut st),
+                None => check(&c, &tpl, &mut st),
+            }
         }
     }
     ctx.merge(st);
